@@ -496,10 +496,10 @@ impl <N: Alphanumeric> ArrayStringManipulate<N> for Array<N> {
         let fill_char = fill_char.unwrap_or(Array::single(' ')?);
         let (array, width, fill_char) = self.broadcast_h3(width, &fill_char)?;
 
-        let elements = array.into_iter().enumerate()
+        let elements = array.clone().into_iter().enumerate()
             .map(|(idx, s)| s._center(width[idx], fill_char[idx]))
             .collect();
-        Self::new(elements, self.get_shape()?)
+        Self::new(elements, array.get_shape()?)
     }
 
     fn join(&self, sep: &Self) -> Result<Self, ArrayError> {
@@ -595,10 +595,10 @@ impl <N: Alphanumeric> ArrayStringManipulate<N> for Array<N> {
         let fill_char = fill_char.unwrap_or(Array::single(' ')?);
         let (array, width, fill_char) = self.broadcast_h3(width, &fill_char)?;
 
-        let elements = array.into_iter().enumerate()
+        let elements = array.clone().into_iter().enumerate()
             .map(|(idx, s)| s._ljust(width[idx], fill_char[idx]))
             .collect();
-        Self::new(elements, self.get_shape()?)
+        Self::new(elements, array.get_shape()?)
     }
 
     fn rjust(&self, width: &Array<usize>, fill_char: Option<Array<char>>) -> Result<Self, ArrayError> {
@@ -611,10 +611,10 @@ impl <N: Alphanumeric> ArrayStringManipulate<N> for Array<N> {
         let width = width.broadcast_to(array.get_shape()?)?;
         let fill_char = fill_char.broadcast_to(array.get_shape()?)?;
 
-        let elements = array.into_iter().enumerate()
+        let elements = array.clone().into_iter().enumerate()
             .map(|(idx, s)| s._rjust(width[idx], fill_char[idx]))
             .collect();
-        Self::new(elements, self.get_shape()?)
+        Self::new(elements, array.get_shape()?)
     }
 
     fn zfill(&self, width: usize) -> Result<Self, ArrayError> {
